@@ -1,7 +1,7 @@
 INIT GenInit
 NEXT GenNext
 CONSTANTS
-  Elevs = {1, 2, 3}
+  Elevs = {0, 1, 255}
   MaxLen = 6
   Azs = {1, 2, 3}
   MaxSide = 3
